@@ -240,7 +240,7 @@ end examples
 
 /-- `calculate_exceedance_probability[i][j]` is the mean over time of the instance column (guard: non-empty time
     axis — numpy returns NaN for `T = 0`) -/
-theorem probability_mean (m : Mask) (T i j : Nat) :
+theorem probability_mean (m : Mask) (T i j : Nat) (_hT : 0 < T) :
     prob m T i j = Py.mean ((List.range T).map (fun t => ((inst m t i j : Nat) : Rat))) := by
   unfold prob Py.mean
   rw [cast_sumR]
@@ -718,5 +718,372 @@ theorem from_quantile_two_sided (ty : ThType) (hty : usesUpper ty = true) (lc : 
     (q0 < q1 → ∃ met, fromQuantile ty false lc x none T I J q0 q1 = .ok met ∧ met.ty = ty) ∧
     (¬ q0 < q1 → fromQuantile ty false lc x none T I J q0 q1 = .error "ValueError") := by
   cases ty <;> simp [usesUpper] at hty <;> constructor <;> intro h <;> simp [fromQuantile, qSpec, h]
+
+/-! ## 7. Storage order of the time axis (round 4)
+
+  Nothing in the property depends on the time steps being stored chronologically.  `perm` is a permutation of
+  `0 … T−1`; `reindex perm a` is the array `a` stored in the other order (Model/Metrics.lean). -/
+
+theorem thrAt_reindex (s : Spec) (grp : Option (Nat → Int)) (perm : List Nat) (t i j : Nat) :
+    thrAt s (grp.map (reindex perm)) t i j = thrAt s grp (perm.getD t 0) i j := by
+  cases s with
+  | overall v => rfl
+  | grouped f => cases grp <;> rfl
+
+theorem specOk_reindex (s : Spec) (grp : Option (Nat → Int)) (perm : List Nat) (T : Nat)
+    (hp : perm.Perm (List.range T)) : specOk s (grp.map (reindex perm)) T ↔ specOk s grp T := by
+  cases s with
+  | overall v => simp [specOk]
+  | grouped f =>
+    cases grp with
+    | none => simp [specOk]
+    | some g =>
+      simp only [specOk, Option.map_some, Option.some.injEq, exists_eq_left']
+      constructor
+      · intro h t ht
+        have hm : t ∈ perm := hp.mem_iff.mpr (List.mem_range.mpr ht)
+        obtain ⟨k, hk, rfl⟩ := List.mem_iff_getElem.mp hm
+        have hk' : k < T := by rw [← perm_length hp]; exact hk
+        have := h k hk'
+        simpa [reindex, List.getD_eq_getElem?_getD, List.getElem?_eq_getElem hk] using this
+      · intro h t ht
+        exact h _ (perm_lt hp t ht)
+
+/-- **storage_order_instances**: evaluating a metric on the data set and time axis stored in another order succeeds
+    exactly when it does in the original order, and the instance array is the original one stored in that order
+    (all threshold types, localities and scopes). -/
+theorem storage_order_instances (met : Metric) (x : Data) (grp : Option (Nat → Int)) (perm : List Nat) (T : Nat)
+    (hp : perm.Perm (List.range T)) :
+    ((∃ a', instances met (reindex perm x) (grp.map (reindex perm)) T = .ok a') ↔ (∃ a, instances met x grp T = .ok a)) ∧
+    (∀ a a', instances met x grp T = .ok a → instances met (reindex perm x) (grp.map (reindex perm)) T = .ok a' →
+      ∀ t i j, t < T → a' t i j = reindex perm a t i j) := by
+  constructor
+  · rw [instances_ok_iff, instances_ok_iff, specOk_reindex _ _ _ _ hp, specOk_reindex _ _ _ _ hp]
+  · intro a a' h h' t i j ht
+    have d' := instances_def met (reindex perm x) (grp.map (reindex perm)) T a' h' t i j ht
+    have d := instances_def met x grp T a h (perm.getD t 0) i j (perm_lt hp t ht)
+    simp only [thrAt_reindex] at d'
+    show a' t i j = a (perm.getD t 0) i j
+    cases hty : met.ty <;> simp only [hty] at d d'
+    · obtain ⟨th, h1, h2⟩ := d; obtain ⟨th', h1', h2'⟩ := d'
+      rw [h1] at h1'; cases h1'; rw [h2, h2']; rfl
+    · obtain ⟨th, h1, h2⟩ := d; obtain ⟨th', h1', h2'⟩ := d'
+      rw [h1] at h1'; cases h1'; rw [h2, h2']; rfl
+    · obtain ⟨lo, hi, h1, h3, h2⟩ := d; obtain ⟨lo', hi', h1', h3', h2'⟩ := d'
+      rw [h1] at h1'; rw [h3] at h3'; cases h1'; cases h3'; rw [h2, h2']; rfl
+    · obtain ⟨lo, hi, h1, h3, h2⟩ := d; obtain ⟨lo', hi', h1', h3', h2'⟩ := d'
+      rw [h1] at h1'; rw [h3] at h3'; cases h1'; cases h3'; rw [h2, h2']; rfl
+
+/-- **storage_order_annual**: the years found, every annual count and every annual value are the same in every
+    storage order of the time axis (yearly blocks out of order, descending, shuffled, two runs concatenated …) -/
+theorem storage_order_annual (x : Data) (m : Mask) (yr : Nat → Int) (perm : List Nat) (T : Nat)
+    (hp : perm.Perm (List.range T)) :
+    unique (yearList (reindex perm yr) T) = unique (yearList yr T) ∧
+    (∀ y i j, annualCount (reindex perm m) (reindex perm yr) T y i j = annualCount m yr T y i j) ∧
+    (∀ y i j, annualValue (reindex perm x) (reindex perm m) (reindex perm yr) T y i j = annualValue x m yr T y i j) := by
+  refine ⟨unique_years_reindex perm T hp yr, ?_, ?_⟩
+  · intro y i j
+    exact sumYear_reindex perm T hp yr y (fun t => inst m t i j)
+  · intro y i j
+    exact sumYear_reindex perm T hp yr y (fun t => filt x m t i j)
+
+/-- **storage_order_totals**: counts, probabilities, amounts, percentages and intensities per location, spatial
+    extents summed, and the total number of instances do not depend on the storage order either -/
+theorem storage_order_totals (x : Data) (m : Mask) (perm : List Nat) (T I J : Nat) (hp : perm.Perm (List.range T)) :
+    (∀ i j, countAt (reindex perm m) T i j = countAt m T i j) ∧
+    (∀ i j, prob (reindex perm m) T i j = prob m T i j) ∧
+    (∀ i j, percent (reindex perm x) (reindex perm m) T i j = percent x m T i j) ∧
+    (∀ i j, intensity (reindex perm x) (reindex perm m) T i j = intensity x m T i j) ∧
+    total (reindex perm m) T I J = total m T I J := by
+  have hc : ∀ i j, countAt (reindex perm m) T i j = countAt m T i j := fun i j =>
+    sumR_reindex perm T hp (fun t => inst m t i j)
+  have hf : ∀ i j, sumR T (fun t => filt (reindex perm x) (reindex perm m) t i j) = sumR T (fun t => filt x m t i j) :=
+    fun i j => sumR_reindex perm T hp (fun t => filt x m t i j)
+  have hx : ∀ i j, sumR T (fun t => reindex perm x t i j) = sumR T (fun t => x t i j) :=
+    fun i j => sumR_reindex perm T hp (fun t => x t i j)
+  refine ⟨hc, ?_, ?_, ?_, ?_⟩
+  · intro i j; unfold prob; have := hc i j; unfold countAt at this; rw [this]
+  · intro i j; unfold percent; simp only [hf, hx]
+  · intro i j; unfold intensity; have := hc i j; unfold countAt at this; simp only [hf, this]
+  · rw [total_eq_sum_countAt, total_eq_sum_countAt]
+    apply sumIJ_congr; intro i j _ _; exact hc i j
+
+-- a descending two-year axis: the years are stored 2001, 2001, 2000, 2000
+example : [3, 2, 1, 0].Perm (List.range 4) := by decide
+example : annualCount (reindex [3, 2, 1, 0] (fun t _ _ => decide (t ≠ 0))) (reindex [3, 2, 1, 0] (fun t => if t < 2 then 2000 else 2001))
+    4 2000 0 0 = 1 := by decide
+
+/-! ## 8. Values at time steps that do not meet the condition never influence an amount (round 4) -/
+
+/-- `filter_threshold_exceedances` selects, it does not compute: for ANY value type (floats with NaN / ±inf included)
+    the result at an entry depends on the data only where the condition is met -/
+theorem filter_ignores_non_instances {α : Type} [Zero α] (x x' : Nat → Nat → Nat → α) (m : Mask) (t i j : Nat)
+    (h : m t i j = true → x t i j = x' t i j) : filtG x m t i j = filtG x' m t i j := by
+  unfold filtG
+  cases hm : m t i j
+  · simp
+  · simp [h hm]
+
+theorem filt_eq_filtG (x : Data) (m : Mask) : filt x m = filtG x m := rfl
+
+/-- **amounts_ignore_non_instances**: two data sets that agree on the time steps meeting the condition have the same
+    amount, the same annual values and the same intensity index at the location, whatever they hold elsewhere -/
+theorem amounts_ignore_non_instances (x x' : Data) (m : Mask) (T i j : Nat)
+    (h : ∀ t, t < T → m t i j = true → x t i j = x' t i j) :
+    sumR T (fun t => filt x m t i j) = sumR T (fun t => filt x' m t i j) ∧
+    (∀ yr y, annualValue x m yr T y i j = annualValue x' m yr T y i j) ∧
+    intensity x m T i j = intensity x' m T i j := by
+  have hf : ∀ t, t < T → filt x m t i j = filt x' m t i j := fun t ht =>
+    filter_ignores_non_instances x x' m t i j (h t ht)
+  have hs := sumR_congr T (fun t => filt x m t i j) (fun t => filt x' m t i j) hf
+  refine ⟨hs, ?_, ?_⟩
+  · intro yr y
+    unfold annualValue
+    rw [sumYear_eq, sumYear_eq]
+    apply sumR_congr; intro t ht
+    show (if yr t = y then filt x m t i j else 0) = (if yr t = y then filt x' m t i j else 0)
+    rw [hf t ht]
+  · unfold intensity; simp only [hs]
+
+/-- IEEE comparisons with NaN are false: NaN is never an instance, for every threshold type -/
+theorem nan_never_instance (ty : ThType) (lo hi : Rat) : condX ty .nan lo hi = false := by
+  cases ty <;> rfl
+
+/-- `+inf` is not an instance of `lower` / `between`, `−inf` not of `higher` / `between` -/
+theorem inf_not_instance (lo hi : Rat) :
+    condX .lower .pinf lo hi = false ∧ condX .between .pinf lo hi = false ∧
+    condX .higher .ninf lo hi = false ∧ condX .between .ninf lo hi = false := by
+  refine ⟨rfl, ?_, rfl, rfl⟩
+  simp [condX, XVal.gt, XVal.lt]
+
+/-- on finite values the extended comparison is the defining comparison of `instances_def` -/
+theorem condX_fin (ty : ThType) (q lo hi : Rat) :
+    condX ty (.fin q) lo hi = (match ty with
+      | .higher => decide (q > lo)
+      | .lower => decide (q < lo)
+      | .between => decide (lo < q ∧ q < hi)
+      | .outside => decide (q < lo ∨ q > hi)) := by
+  cases ty <;> simp [condX, XVal.gt, XVal.lt]
+
+/-- **filter_finite**: if every non-finite entry fails the condition, the filtered array is finite everywhere
+    (so yearly amounts and intensities are) -/
+theorem filter_finite (x : Nat → Nat → Nat → XVal) (m : Mask)
+    (h : ∀ t i j, (x t i j).isFin = false → m t i j = false) (t i j : Nat) : (filtG x m t i j).isFin = true := by
+  unfold filtG
+  cases hm : m t i j
+  · rfl
+  · simp only [if_true]
+    cases hf : (x t i j).isFin
+    · rw [h t i j hf] at hm; cases hm
+    · rfl
+
+example : filtG (fun t _ _ => if t = 1 then XVal.nan else .fin 3) (fun t _ _ => condX .higher (if t = 1 then XVal.nan else .fin 3) 2 0) 1 0 0
+    = .fin 0 := by decide +kernel
+
+/-! ## 9. A metric object used repeatedly (round 4): every evaluation reads the current attributes and contents -/
+
+/-- **sequence_eval_current**: in any sequence of attribute assignments, in-place writes and evaluations on one metric
+    object, an evaluation returns the instances of the attributes and array contents as they are at that moment -/
+theorem sequence_eval_current (T : Nat) (s : MState) (pre post : List Op) :
+    runOps T s (pre ++ Op.eval :: post) =
+      runOps T s pre ++ evalNow (applyAll s pre) T :: runOps T (applyAll s pre) post := by
+  induction pre generalizing s with
+  | nil => rfl
+  | cons op pre ih =>
+    cases op with
+    | eval =>
+      show evalNow s T :: runOps T s (pre ++ Op.eval :: post) = _
+      rw [ih s]; rfl
+    | setType ty => exact ih _
+    | setThr a b => exact ih _
+    | write x => exact ih _
+    | scale c => exact ih _
+    | setTime g => exact ih _
+
+/-- the state reached is the last value assigned to each component (here: data written after any history) -/
+theorem write_overrides_history (s : MState) (pre : List Op) (x : Data) :
+    (applyAll s (pre ++ [Op.write x])).x = x := by
+  unfold applyAll; rw [List.foldl_append]; rfl
+
+def outAt (l : List (Except String (Nat → Nat → Nat → Nat))) (k t i j : Nat) : Nat :=
+  match l[k]? with
+  | some (.ok a) => a t i j
+  | _ => 99
+
+/-- what the specification excludes: a memo keyed on the identity of the array objects returns the stale mask after
+    the buffer is rewritten in place (or after `threshold_type` is reassigned) -/
+theorem legacy_identity_cache_stale :
+    let s : MState := ⟨.higher, .overall (.glob 0), .overall (.glob 0), fun _ _ _ => 1, none⟩
+    outAt (runOps 1 s [.eval, .write (fun _ _ _ => -1), .eval]) 1 0 0 0 = 0 ∧
+    outAt (runCachedById 1 s none [.eval, .write (fun _ _ _ => -1), .eval]) 1 0 0 0 = 1 ∧
+    outAt (runOps 1 s [.eval, .setType .lower, .eval]) 1 0 0 0 = 0 ∧
+    outAt (runCachedById 1 s none [.eval, .setType .lower, .eval]) 1 0 0 0 = 1 := by
+  decide +kernel
+
+/-! ## 10. The documented seasons (round 4) -/
+
+/-- `utils.season`: December–February is Winter (0), March–May Spring (1), June–August Summer (2),
+    September–November Autumn (3); nothing else is a month -/
+theorem season_table :
+    (List.range 12).map (fun (k : Nat) => seasonOfMonth ((k : Int) + 1)) =
+      [some 0, some 0, some 1, some 1, some 1, some 2, some 2, some 2, some 3, some 3, some 3, some 0] ∧
+    ∀ m : Int, (m < 1 ∨ 12 < m) → seasonOfMonth m = none := by
+  refine ⟨by decide, ?_⟩
+  intro m hm
+  unfold seasonOfMonth
+  split_ifs <;> first | rfl | omega
+
+/-! ## 11. Two-sided quantile thresholds, remaining ranges (round 4) -/
+
+open Model.Stats in
+/-- **quantile_count_outside**: for `q₀ ≤ q₁` in `[0,1]` and a tie-free sample, `⌈q₀ (n−1)⌉ + (n − 1 − ⌊q₁ (n−1)⌋)`
+    values lie outside `[Q(q₀), Q(q₁)]` -/
+theorem quantile_count_outside (x : List Rat) (q0 q1 : Rat) (hn : x.Nodup) (hne : x ≠ []) (h0 : 0 ≤ q0) (h01 : q0 ≤ q1)
+    (h1 : q1 ≤ 1) :
+    (((x.filter (fun v => decide (v < quantileLinear (sortQ x) q0) || decide (v > quantileLinear (sortQ x) q1))).length : Nat) : Int) =
+      (if ((q0 * ((x.length : Rat) - 1)).floor : Rat) = q0 * ((x.length : Rat) - 1) then (q0 * ((x.length : Rat) - 1)).floor
+        else (q0 * ((x.length : Rat) - 1)).floor + 1) + ((x.length : Int) - 1 - (q1 * ((x.length : Rat) - 1)).floor) := by
+  have hs := sortQ_strict x hn
+  have hsne : sortQ x ≠ [] := by
+    intro h; have := sortQ_length x; rw [h] at this; simp at this; exact hne (List.length_eq_zero_iff.mp this.symm)
+  obtain ⟨f0, g0, hf0, hl0, hg0, _, hlt0⟩ := quantile_index (sortQ x) hs hsne q0 h0 (le_trans h01 h1)
+  obtain ⟨f1, g1, hf1, hl1, _, hgt1, _⟩ := quantile_index (sortQ x) hs hsne q1 (le_trans h0 h01) h1
+  rw [sortQ_length] at hf0 hf1 hg0 hl0 hl1
+  have hlen : 0 < x.length := List.length_pos_iff.mpr hne
+  have hmono : (((x.length : Rat) - 1) * q0).floor ≤ (((x.length : Rat) - 1) * q1).floor := by
+    apply floor_mono
+    have : (0 : Rat) ≤ (x.length : Rat) - 1 := by
+      have : (1 : Rat) ≤ (x.length : Rat) := by exact_mod_cast hlen
+      linarith
+    exact mul_le_mul_of_nonneg_left h01 this
+  have hperm := ((sortQ_perm x).filter (fun v => decide (v < quantileLinear (sortQ x) q0) || decide (v > quantileLinear (sortQ x) q1))).length_eq
+  rw [← hperm, count_index_pred (sortQ x) _ (fun k => decide (k < g0 ∨ f1 + 1 ≤ k))]
+  · rw [count_range_outside _ g0 f1 (by rw [hg0]; split_ifs <;> omega), sortQ_length, mul_comm q0, mul_comm q1]
+    by_cases hi0 : ((((x.length : Rat) - 1) * q0).floor : Rat) = ((x.length : Rat) - 1) * q0
+    · rw [if_pos hi0] at hg0 ⊢; subst hg0; omega
+    · rw [if_neg hi0] at hg0 ⊢; subst hg0; omega
+  · intro k hk
+    rw [hlt0 k hk, hgt1 k hk]
+    by_cases a : k < g0 <;> by_cases b : f1 + 1 ≤ k <;> simp [a, b]
+
+open Model.Stats in
+/-- **quantile_count_between**: for `q₀ ≤ q₁`, `max 0 (⌈q₁ (n−1)⌉ − ⌊q₀ (n−1)⌋ − 1)` values lie strictly between the two
+    quantiles (the bounds themselves are excluded: the comparison is strict) -/
+theorem quantile_count_between (x : List Rat) (q0 q1 : Rat) (hn : x.Nodup) (hne : x ≠ []) (h0 : 0 ≤ q0) (h01 : q0 ≤ q1)
+    (h1 : q1 ≤ 1) :
+    (((x.filter (fun v => decide (v > quantileLinear (sortQ x) q0) && decide (v < quantileLinear (sortQ x) q1))).length : Nat) : Int) =
+      max 0 ((if ((q1 * ((x.length : Rat) - 1)).floor : Rat) = q1 * ((x.length : Rat) - 1) then (q1 * ((x.length : Rat) - 1)).floor
+        else (q1 * ((x.length : Rat) - 1)).floor + 1) - (q0 * ((x.length : Rat) - 1)).floor - 1) := by
+  have hs := sortQ_strict x hn
+  have hsne : sortQ x ≠ [] := by
+    intro h; have := sortQ_length x; rw [h] at this; simp at this; exact hne (List.length_eq_zero_iff.mp this.symm)
+  obtain ⟨f0, g0, hf0, hl0, _, hgt0, _⟩ := quantile_index (sortQ x) hs hsne q0 h0 (le_trans h01 h1)
+  obtain ⟨f1, g1, hf1, hl1, hg1, _, hlt1⟩ := quantile_index (sortQ x) hs hsne q1 (le_trans h0 h01) h1
+  rw [sortQ_length] at hf0 hf1 hg1 hl0 hl1
+  have hperm := ((sortQ_perm x).filter (fun v => decide (v > quantileLinear (sortQ x) q0) && decide (v < quantileLinear (sortQ x) q1))).length_eq
+  rw [← hperm, count_index_pred (sortQ x) _ (fun k => decide (f0 + 1 ≤ k ∧ k < g1))]
+  · rw [count_range_window, sortQ_length, mul_comm q0, mul_comm q1]
+    by_cases hi1 : ((((x.length : Rat) - 1) * q1).floor : Rat) = ((x.length : Rat) - 1) * q1
+    · rw [if_pos hi1] at hg1 ⊢; subst hg1; omega
+    · rw [if_neg hi1] at hg1 ⊢; subst hg1; omega
+  · intro k hk
+    rw [hgt0 k hk, hlt1 k hk]
+    by_cases a : f0 + 1 ≤ k <;> by_cases b : k < g1 <;> simp [a, b]
+
+-- n = 7, q = 1/4, 3/4: (n−1)q = 1.5, 4.5; below Q₀: 2, above Q₁: 2, strictly between: 3
+open Model.Stats in
+example : quantileLinear [1, 3 / 2, 2, 3, 4, 6, 9] (1 / 4) = 7 / 4 ∧ quantileLinear [1, 3 / 2, 2, 3, 4, 6, 9] (3 / 4) = 5 ∧
+    (([3, 1, 4, 3 / 2, 9, 2, 6] : List Rat).filter (fun v => decide (v < 7 / 4) || decide (v > 5))).length = 4 ∧
+    (([3, 1, 4, 3 / 2, 9, 2, 6] : List Rat).filter (fun v => decide (v > 7 / 4) && decide (v < 5))).length = 3 := by decide +kernel
+
+/-- `from_quantile` for `between` / `outside`, every scope: `ValueError` unless `q₀ < q₁`; with a time scope also when no
+    time is given; otherwise a metric of the requested type (strengthens `from_quantile_two_sided`) -/
+theorem from_quantile_two_sided_all (ty : ThType) (hty : usesUpper ty = true) (byTime : Bool) (lc : Locality) (x : Data)
+    (grp : Option (Nat → Int)) (T I J : Nat) (q0 q1 : Rat) :
+    (q0 < q1 → (byTime = true → grp.isSome = true) → ∃ met, fromQuantile ty byTime lc x grp T I J q0 q1 = .ok met ∧ met.ty = ty) ∧
+    (¬ q0 < q1 → fromQuantile ty byTime lc x grp T I J q0 q1 = .error "ValueError") ∧
+    (byTime = true → grp = none → fromQuantile ty byTime lc x grp T I J q0 q1 = .error "ValueError") := by
+  cases ty <;> simp [usesUpper] at hty <;> cases byTime <;> cases grp <;>
+    refine ⟨?_, ?_, ?_⟩ <;> intro h <;> simp [fromQuantile, qSpec, h]
+
+/-! the quantile count for time-scoped thresholds: within every time group -/
+
+/-- the dict `from_quantile` builds for a time scope: a threshold for every group that occurs -/
+def groupThr (x : Data) (g : Nat → Int) (T I J : Nat) (q : Rat) : Int → Option Thr := fun key =>
+  if ((List.range T).filter (fun t => decide (g t = key))).isEmpty then none
+  else some (qThr .global x ((List.range T).filter (fun t => decide (g t = key))) I J q)
+
+open Model.Stats in
+/-- **from_quantile, per time group**: the metric `from_quantile(x, q, "higher", scope = day | month | season)` has, among
+    the time steps of every group `key` whose values are tie-free, exactly `n − 1 − ⌊q (n−1)⌋` instances (`n` = number of
+    values of that group) — in whatever order the time steps are stored -/
+theorem from_quantile_count_grouped (x : Data) (g : Nat → Int) (T I J : Nat) (q q' : Rat) (key : Int)
+    (hn : (flat x ((List.range T).filter (fun t => decide (g t = key))) I J).Nodup)
+    (hne : flat x ((List.range T).filter (fun t => decide (g t = key))) I J ≠ []) (hq0 : 0 ≤ q) (hq1 : q ≤ 1) :
+    ∃ met a, fromQuantile .higher true .global x (some g) T I J q q' = .ok met ∧ instances met x (some g) T = .ok a ∧
+      (((((List.range T).filter (fun t => decide (g t = key))).map (fun t => sumIJ I J (a t))).sum : Nat) : Int) =
+        ((flat x ((List.range T).filter (fun t => decide (g t = key))) I J).length : Int) - 1 -
+          (q * (((flat x ((List.range T).filter (fun t => decide (g t = key))) I J).length : Rat) - 1)).floor := by
+  have hsome : ∀ t, t < T → ((List.range T).filter (fun t' => decide (g t' = g t))).isEmpty = false := by
+    intro t ht
+    have : t ∈ (List.range T).filter (fun t' => decide (g t' = g t)) := by simp [List.mem_filter, ht]
+    cases hl : (List.range T).filter (fun t' => decide (g t' = g t)) with
+    | nil => rw [hl] at this; simp at this
+    | cons _ _ => rfl
+  have hall : (List.range T).all (fun t => (groupThr x g T I J q (g t)).isSome) = true := by
+    rw [List.all_eq_true]
+    intro t ht
+    simp [groupThr, hsome t (List.mem_range.mp ht)]
+  refine ⟨⟨.higher, .grouped (groupThr x g T I J q), .grouped (groupThr x g T I J q)⟩,
+    inst (fun t i j => cmpHL .higher (x t i j) (match groupThr x g T I J q (g t) with
+      | some v => v.at i j
+      | none => 0)), rfl, ?_, ?_⟩
+  · simp only [instances, mask, maskHL, thresholds, hall, if_true, Except.map]
+    rfl
+  · rw [← quantile_count _ q hn hne hq0 hq1, flat_count_list]
+    congr 2
+    apply List.map_congr_left
+    intro t ht
+    have htT : t < T := List.mem_range.mp (List.mem_filter.mp ht).1
+    have hk : g t = key := by simpa using (List.mem_filter.mp ht).2
+    apply sumIJ_congr
+    intro i j _ _
+    have := hsome t htT
+    rw [hk] at this
+    simp only [inst, cmpHL, groupThr, hk, this, Bool.false_eq_true, if_false, Thr.at, qThr]
+
+-- the hypotheses of `from_quantile_count_grouped` are satisfiable: four steps in two groups, group 1 = steps 0 and 2
+example : (flat (fun t _ _ => (t : Rat)) ((List.range 4).filter (fun t => decide ((if t % 2 = 0 then (1 : Int) else 2) = 1))) 1 1).Nodup ∧
+    flat (fun t _ _ => (t : Rat)) ((List.range 4).filter (fun t => decide ((if t % 2 = 0 then (1 : Int) else 2) = 1))) 1 1 ≠ [] := by
+  decide +kernel
+
+/-! ## 12. Remaining oracle clauses (round 4) -/
+
+/-- every reported spatial extent is at most 1 (with `spatial_extent_pos`: in `(0, 1]`) -/
+theorem spatial_extent_le_one (m : Mask) (T I J : Nat) (hIJ : 0 < I * J) : ∀ e ∈ spatialExtent m T I J, e ≤ 1 := by
+  intro e he
+  unfold spatialExtent at he
+  rw [List.mem_filter, List.mem_map] at he
+  obtain ⟨⟨t, _, rfl⟩, _⟩ := he
+  have hN : (0 : Rat) < ((I * J : Nat) : Rat) := by exact_mod_cast hIJ
+  rw [div_le_one hN]
+  have : cellsAt m I J t ≤ I * J := by
+    unfold cellsAt sumIJ
+    calc sumR I (fun i => sumR J (fun j => inst m t i j)) ≤ sumR I (fun _ => J) := by
+          apply sumR_mono_nat; intro i _; exact sumR_le J _ (fun j _ => inst_le_one m t i j)
+      _ = I * J := sumR_const_nat I J
+  exact_mod_cast this
+
+/-- `minimum_length = ℓ` keeps exactly the spells of the `minimum_length = 0` table that are longer than `ℓ` (`ℓ ≥ 0`) -/
+theorem spell_min_length_filter (m : Mask) (T I J : Nat) (hT : 0 < T) (l : Int) (hl : 0 ≤ l) :
+    spellLengths m T I J l = (spellLengths m T I J 0).map (fun all => all.filter (fun s => decide (s > l))) := by
+  rw [spell_lengths_grid m T I J hT l, spell_lengths_grid m T I J hT 0, Option.map_some, List.filter_filter]
+  congr 1
+  apply List.filter_congr
+  intro s _
+  by_cases h : s > l
+  · have : s > 0 := by omega
+    simp [h, this]
+  · simp [h]
 
 end Props.C19
